@@ -9,11 +9,18 @@ out.append("### 9.3 Seeded changes (independent sub-agents, confirmed, then run 
 out.append("Each row: a change written by a fresh sub-agent that saw only the property text and a scratch worktree; `confirmed` = patch applies to the repository HEAD, builds, the existing suite passes with it, its demonstration fails with it and passes without it (all re-run by `lib/seeded.py`). The check was run from a scratch copy of /verif against a scratch copy of the repository with the patch applied.\n")
 out.append("| seeded change | property | confirmed | caught by quick check | first signatures | wall s |")
 out.append("|---|---|---|---|---|---|")
+NOTES = json.load(open(os.path.join(V, "seeded", "strengthening_notes.json"))) if os.path.exists(os.path.join(V, "seeded", "strengthening_notes.json")) else {}
 for d in sorted(glob.glob(os.path.join(V, "seeded", "*", "meta.json"))):
     m = json.load(open(d))
     for c, r in m.get("checks", {}).items():
         sigs = "; ".join(s.replace("|", "\\|")[:70] for s in r.get("signatures", [])[:2])
-        out.append(f"| `{m['name']}` | {c} | {'yes' if m.get('confirmed') else 'NO (see note)'} | {'**yes**' if r.get('caught') else 'no'} | {sigs} | {r.get('wall_s')} |")
+        missed_first = any((h.get("earlier_result") or {}).get("caught") is False for h in m.get("history", []) if h.get("check") == c)
+        verdict = '**yes**' if r.get('caught') else 'no'
+        if r.get('caught') and missed_first:
+            verdict = '**yes** (missed by the check as it stood; strengthened, then caught)'
+        if m['name'] in NOTES:
+            verdict += ' - ' + NOTES[m['name']]
+        out.append(f"| `{m['name']}` | {c} | {'yes' if m.get('confirmed') else 'NO (see note)'} | {verdict} | {sigs} | {r.get('wall_s')} |")
 out.append("")
 out.append("### 9.4 Mutant sensitivity runs (`lib/mutants.py`, quick tier, scratch copies)\n")
 out.append("| property | mutant | result | first signature | expectation |")
